@@ -250,6 +250,11 @@ func sentOrder(v *runView, e string, match func(tag string) bool) (tags []string
 }
 
 func monDelivery(v *runView) (out []finding) {
+	if v.relwErr {
+		// the director made a Write return an error while the connection lived on (not something a real
+		// transport does): the message of that Write is legitimately missing, order checks do not apply
+		return monIsolationOnly(v)
+	}
 	byH, byC := received(v)
 	// client -> server, per RPC r (tags "r.n")
 	for r := range v.rpcKind {
@@ -297,6 +302,17 @@ func monDelivery(v *runView) (out []finding) {
 		}
 	}
 	// isolation (C02): whatever a call of RPC r receives was sent on r's stream
+	for _, x := range byC {
+		sid := v.rpcSid[x.R]
+		if !strings.HasPrefix(x.Tag, "s"+strconv.Itoa(sid)+".") || sid == 0 {
+			out = append(out, finding{"C02", "a client call received a message of another stream", x.Line, map[string]any{"rpc": x.R, "stream": sid, "tag": x.Tag}})
+		}
+	}
+	return
+}
+
+func monIsolationOnly(v *runView) (out []finding) {
+	_, byC := received(v)
 	for _, x := range byC {
 		sid := v.rpcSid[x.R]
 		if !strings.HasPrefix(x.Tag, "s"+strconv.Itoa(sid)+".") || sid == 0 {
